@@ -154,6 +154,9 @@ func compare(res *Result, c *Case, model SX) {
 		}
 		seen[name] = true
 		mf, ok := model.Field(name)
+		if ok && len(mf.L) == 2 && (name == "acc0" || name == "acc1" || name == "acc2") {
+			mf = L(mf.L[0], canonAcc(mf.L[1]))
+		}
 		res.Compared[name]++
 		if !ok || mf.String() != f.String() {
 			res.NMismatch++
